@@ -52,6 +52,19 @@ ASSUMPTIONS = [
     "every exact catalog case that c*A (c = 1/4, 8; 32-bit integers) has the same exact basis, c*H, the same breakdown "
     "step and expected observables; exact-breakdown cases are scaled by the power of two only (the run stays exact, "
     "tol = 0 included)",
+    "start-invariance family (attrs start_scale / start_dtype): for the same deterministic subset the start vector(s) "
+    "are multiplied by c in {1e-13, 1e-30 (double precision only), 1e8} (exact-breakdown cases: the dyadic 2^-44, "
+    "tol = 0 included) and / or handed over in a dtype other than the operator's (narrower / wider float, real vector "
+    "for a complex operator, int64 / int32 when the entries are integral; a complex vector is never given to a real "
+    "operator; random starts in an invariant subspace are not rounded to a narrower float), single and batched, for "
+    "lanczos, lanczos_eigs, Lanczos().  All clauses of the original apply unchanged (the factorisation depends on v only "
+    "through its direction and lives in the operator's dtype; TLC: MC_Krylov!StartScaleInvariant on every exact case, "
+    "c = 1/4, 8); clause start_invariance compares with the reference run (same direction, operator's dtype): output "
+    "dtypes, number of steps / columns (when the stop is visible or the variant is exact), leading basis vectors, T "
+    "and the eigen / Ritz values.  Tolerance: a few ulps for dyadic factors, the relative tolerance of the other "
+    "clauses for non-dyadic factors, and 1e3 ulps of the narrower float type for dtype variants - arnoldi normalises "
+    "the start vector in the vector's own dtype before promoting it (findings/C15-start-vector-normalised-in-its-own-"
+    "dtype.py), which is below the property's tolerance and not raised",
     "exact-breakdown family (attr exact=true): Hermitian operators / start vectors with small integer entries for "
     "which TLC computes the Arnoldi (= Lanczos) factorisation exactly over Q(i) and certifies that it is exact in "
     "binary floating point (Krylov!ExactArnoldiOK: dyadic entries, perfect-square norms, zero residual exactly at "
